@@ -268,6 +268,8 @@ def run_jobs(jobs, workdir, tag, shards=8):
                         done_ids.add(json.loads(line)["run"])
                     elif '"e":"prog"' in line:
                         last = json.loads(line)["run"]
+            if last is None and not done_ids:
+                raise ToolError(f"harness exited with {rc} before running any program of {jf}")
             if rc == 3:
                 info["hangs"] += 1
             else:
